@@ -303,13 +303,14 @@ theorem levels_coupled (H : Heap merge t d h) :
         ∀ (st : GSt D), st.ptrs = acc.map List.length →
           (∀ y ∈ idxs, AMap.get st.v y = some (h y)) →
           ∃ st', grLevels merge accF k idxs st = .ok st' ∧ AMap.get st'.v 1 = some (h 1) ∧
+            st'.ptrs = accF.map List.length ∧
             (∀ kv ∈ st.log, kv ∈ st'.log) ∧ (Clean h st.log → Clean h st'.log) ∧
             ((∀ y ∈ idxs, y ∈ lkeys st.log) →
               ∀ y ∈ idxs, ∀ m, m < k → ((y / 2 ^ m) ^^^ 1) ∈ lkeys st'.log)
   | 0, idxs, acc, hne, _, hr, _ => by
     refine ⟨acc, rfl, rfl, Ext.refl _, ?_⟩
-    intro st _ hv
-    refine ⟨st, rfl, ?_, fun _ hk => hk, fun hc => hc, fun _ _ _ m hm => by omega⟩
+    intro st hp0 hv
+    refine ⟨st, rfl, ?_, hp0, fun _ hk => hk, fun hc => hc, fun _ _ _ m hm => by omega⟩
     obtain ⟨y, rest, rfl⟩ : ∃ y rest, idxs = y :: rest := by
       cases idxs with
       | nil => exact absurd rfl hne
@@ -334,8 +335,8 @@ theorem levels_coupled (H : Heap merge t d h) :
     refine ⟨accF, by simp [pbLevels, hpb, hpbs], by omega, hext.trans hextF, ?_⟩
     intro st hp hv
     obtain ⟨st1, hg1, hp1, _, hnx, hm1, hc1, hpar1, hsib1⟩ := hgr accF st hextF hp hv
-    obtain ⟨st', hg2, hroot, hm2, hc2, hanc⟩ := hgrs st1 hp1 hnx
-    refine ⟨st', by simp [grLevels, hg1, hg2], hroot, fun kv hk => hm2 kv (hm1 kv hk),
+    obtain ⟨st', hg2, hroot, hpF, hm2, hc2, hanc⟩ := hgrs st1 hp1 hnx
+    refine ⟨st', by simp [grLevels, hg1, hg2], hroot, hpF, fun kv hk => hm2 kv (hm1 kv hk),
       fun hc => hc2 (hc1 hc), ?_⟩
     intro hkeys y hy m hm
     cases m with
@@ -657,7 +658,7 @@ theorem proveBatch_getRoot [Inhabited D] (H : Heap merge t d h) (hd : d < 64) (i
     grFirst_honest H idxs imap G accF (normalize idxs) 0 [] [] hnorm hpn
   have hnx' : r.2 = (normalize idxs).map (fun e => (e + t.leaves.length) / 2) := by
     rw [hnx, H.llen]; apply List.map_congr_left; intro e _; rw [Nat.add_comm]
-  obtain ⟨st', hgl, hroot, hm, hc, hanc⟩ := hgrs r.1 (by rw [hptr, List.map_map]; rfl)
+  obtain ⟨st', hgl, hroot, hpF, hm, hc, hanc⟩ := hgrs r.1 (by rw [hptr, List.map_map]; rfl)
     (by rw [← hnx']; exact hall)
   rw [← hnx'] at hgl
   have hlen : (normalize idxs).length = accF.length := by simpa using hlF.symm
@@ -667,7 +668,9 @@ theorem proveBatch_getRoot [Inhabited D] (H : Heap merge t d h) (hd : d < 64) (i
   refine ⟨⟨accF, d⟩, ?_, rfl, by simpa using hlF, ?_, ?_, by have := hpbs; rw [H.llen] at this; exact this⟩
   · simp only [Tree.proveBatch, hie, hdep, hmap, hpf, hpbs, hd256]
     simp
-  · simp [BatchProof.getRoot, hie, hrun, hroot]
+  · -- every vector of the honest proof is consumed exactly (fix f1ad895)
+    have hused : unusedNodes st'.ptrs accF = false := by rw [hpF]; exact unusedNodes_map_length accF
+    simp [BatchProof.getRoot, hie, hrun, hroot, hused]  -- one leaf per index: `length_map`
   · -- the partial tree holds the tree's value at every key, and every key a path needs
     have hcl : Clean h (st'.log ++ initLog d idxs (idxs.map (fun i => h (2 ^ d + i)))) := by
       intro kv hk
